@@ -35,8 +35,20 @@ Proof.
       repeat match type of Eb with context [match ?y with _ => _ end] => destruct y end;
       inversion Eb. }
   destruct cc; cbn [andb].
-    - destruct s1 as [t ch]. cbn in Eb. Show.
+  - destruct (a_has_close a) eqn:Eh; [destruct (a_close_exn a)|]; cbn; repeat split; auto; try discriminate.
+  - cbn. repeat split; auto; try discriminate; destruct (a_has_close a); auto.
+Qed.
 
+Lemma ladder_fields x raw :
+  let res := ladder cap lower c r disc x raw in
+  o_closes res = x_closes x /\ o_handover res = x_handover x /\ o_iter res = x_iter x
+  /\ o_raw res = raw /\ o_writes1 res = rev (ch_writes (snd (x_st x)))
+  /\ o_wrote_header1 res = t_wrote_header (fst (x_st x)) /\ o_nws1 res = ch_nws (snd (x_st x)).
+Proof.
+  cbn zeta. unfold ladder.
+  repeat match goal with
+         | |- context [match ?y with _ => _ end] => destruct y eqn:?
+         end; cbn; repeat split; auto.
 Qed.
 
 Theorem close_once a :
@@ -48,29 +60,24 @@ Theorem close_once a :
   /\ (o_iter res = true -> a_has_close a = false -> o_closes res = 0%nat)
   /\ (o_handover res = true -> a_kind a = KFile true).
 Proof.
-  cbn zeta.
-  set (x := if connected disc 0
-            then task_service cap lower c r disc
+  cbn zeta. unfold channel_service.
+  set (x := task_service cap lower c r disc
                    (new_task (r_version r) (match r_error r with Some _ => true | None => false end), mkChan [] 0)
-                   (match r_error r with Some e => inr e | None => inl a end)
-            else mkExec (set_cof true (new_task (r_version r) (match r_error r with Some _ => true | None => false end)),
-                         mkChan [] 0) (Ok tt) 0 false false).
-  assert (E : o_closes (channel_service cap lower c r a disc) = x_closes x
-              /\ o_handover (channel_service cap lower c r a disc) = x_handover x
-              /\ o_iter (channel_service cap lower c r a disc) = x_iter x).
-  { unfold channel_service. fold x.
-    repeat match goal with
-           | |- context [match ?y with _ => _ end] => destruct y eqn:?
-           end; cbn; auto. }
-  destruct E as (E1 & E2 & E3). rewrite E1, E2, E3. clear E1 E2 E3.
+                   (match r_error r with Some e => inr e | None => inl a end)).
+  destruct (connected disc 0).
+  2: { match goal with |- context [ladder cap lower c r disc ?x0 ?raw0] =>
+         destruct (ladder_fields x0 raw0) as (E1 & E2 & E3 & _) end.
+       cbn zeta in *. rewrite E1, E2, E3. cbn. repeat split; auto; try discriminate. }
+  match goal with |- context [ladder cap lower c r disc x ?raw0] =>
+    destruct (ladder_fields x raw0) as (E1 & E2 & E3 & _) end.
+  cbn zeta in *. rewrite E1, E2, E3. clear E1 E2 E3.
   assert (Hx : (x_iter x = false -> x_closes x = 0%nat /\ x_handover x = false)
     /\ (x_iter x = true ->
         (a_has_close a = true -> (x_closes x = 1%nat /\ x_handover x = false)
                                  \/ (x_closes x = 0%nat /\ x_handover x = true))
         /\ (a_has_close a = false -> x_closes x = 0%nat))
     /\ (x_handover x = true -> a_kind a = KFile true)).
-  { subst x. destruct (connected disc 0); [|cbn; repeat split; auto; discriminate].
-    unfold task_service, task_run.
+  { subst x. unfold task_service, task_run.
     destruct (r_error r) as [e|].
     - destruct (error_execute cap lower c r disc _ e) as [s1 [u|e1]]; cbn [x_out x_st x_closes x_handover x_iter].
       + destruct (task_finish cap lower c r disc s1) as [s2 [u2|e2]]; cbn; [|destruct (is_OSError e2); cbn];
@@ -80,8 +87,8 @@ Proof.
       destruct (wsgi_execute cap lower c r disc _ a) as [s1 o1 n1 h1 i1]. cbn [x_out x_st x_closes x_handover x_iter] in *.
       destruct o1 as [u|e1].
       + destruct (task_finish cap lower c r disc s1) as [s2 [u2|e2]]; cbn [x_out x_st x_closes x_handover x_iter];
-          [|destruct (is_OSError e2); cbn [x_out x_st x_closes x_handover x_iter]]; exact W.
-      + destruct (is_OSError e1); cbn [x_out x_st x_closes x_handover x_iter]; exact W. }
+          [|destruct (is_OSError e2)]; cbn; exact W.
+      + cbn. destruct (is_OSError e1); cbn; exact W. }
   destruct Hx as (H1 & H2 & H3).
   destruct (x_iter x) eqn:Ei.
   - destruct (H2 eq_refl) as [H2a H2b]. repeat split; auto; try discriminate.
@@ -92,3 +99,436 @@ Proof.
 Qed.
 
 End Contain.
+
+Section Contain2.
+Variable cap : str -> str.
+Variable lower : str -> str.
+Variable c : cfg.
+Variable r : req.
+Variable disc : option nat.
+
+(* ---- which exceptions the server's own code can raise --------------------- *)
+
+Lemma write_soon_bytes_exn ch b ch' e : write_soon disc ch (WBytes b) = (ch', Exn e) -> e = ClientDisconnected.
+Proof.
+  unfold write_soon. destruct (negb _); [intro H; inversion H; auto|].
+  destruct b; intro H; inversion H.
+Qed.
+
+(* fields that build_response_header / set_close_on_finish never reset *)
+Definition keeps (t t' : task) : Prop :=
+  t_complete t' = t_complete t /\ (t_cof t = true -> t_cof t' = true) /\ t_clen t' = t_clen t
+  /\ t_cbw t' = t_cbw t /\ t_status t' = t_status t.
+
+Lemma keeps_refl t : keeps t t.
+Proof. unfold keeps; tauto. Qed.
+Lemma keeps_trans a b d : keeps a b -> keeps b d -> keeps a d.
+Proof. unfold keeps. intros (A1 & A2 & A3 & A4 & A5) (B1 & B2 & B3 & B4 & B5). repeat split; try congruence; auto. Qed.
+
+Lemma keeps_scof t : keeps t (set_close_on_finish cap lower t) /\ t_cof (set_close_on_finish cap lower t) = true.
+Proof.
+  unfold set_close_on_finish. destruct (negb (t_wrote_header t)); [destruct (fold_left _ (t_rh t) None)|];
+    unfold keeps; cbn; tauto.
+Qed.
+
+Lemma keeps_bh_prepare t : keeps t (bh_prepare cap lower c r t).
+Proof.
+  unfold bh_prepare.
+  set (a := bh_loop cap t). set (t0 := set_rh (ac_rh a) t).
+  assert (K0 : keeps t t0) by (unfold keeps; cbn; tauto).
+  assert (K1 : keeps t0 (snd (bh_clen a t0))).
+  { unfold bh_clen. destruct (ac_cl a), (t_clen t0); try apply keeps_refl.
+    destruct (has_body t0); [unfold keeps; cbn; tauto|apply keeps_refl]. }
+  destruct (bh_clen a t0) as [clh t1]. cbn [snd] in K1.
+  assert (K2 : forall conn t, keeps t (bh_conn cap lower conn clh t)).
+  { intros conn t2. unfold bh_conn.
+    assert (Ha : forall t h, keeps t (set_rh (t_rh t ++ [h]) t)) by (intros; unfold keeps; cbn; tauto).
+    assert (Hk : forall t b, keeps t (set_chunked b t)) by (intros; unfold keeps; cbn; tauto).
+    destruct (negb (t_v11 t2)).
+    - destruct (beqb conn _); [|apply keeps_scof]. destruct (negb (truthy clh)); [apply keeps_scof|apply Ha].
+    - set (t3 := if beqb conn _ then _ else t2).
+      assert (K3 : keeps t2 t3) by (subst t3; destruct (beqb conn _); [apply keeps_scof|apply keeps_refl]).
+      destruct (negb (truthy clh)); auto.
+      set (t4 := if has_body t3 then _ else t3).
+      assert (K4 : keeps t3 t4).
+      { subst t4. destruct (has_body t3); [|apply keeps_refl]. eapply keeps_trans; [apply Ha|apply Hk]. }
+      destruct (negb (t_cof t4)).
+      + eapply keeps_trans; [exact K3|]. eapply keeps_trans; [exact K4|]. apply keeps_scof.
+      + eapply keeps_trans; eauto. }
+  assert (K3 : forall t, keeps t (bh_server c a t)).
+  { intro t2. unfold bh_server. destruct (negb _); destruct (c_ident c); unfold keeps; cbn; tauto. }
+  assert (K4 : forall t, keeps t (bh_date c a t)).
+  { intro t2. unfold bh_date. destruct (negb _); unfold keeps; cbn; tauto. }
+  eapply keeps_trans; [exact K0|]. eapply keeps_trans; [exact K1|].
+  eapply keeps_trans; [apply K2|]. eapply keeps_trans; [apply K3|apply K4].
+Qed.
+
+Lemma write_header_facts s s' o : write_header cap lower c r disc s = (s', o) ->
+  t_complete (fst s') = t_complete (fst s)
+  /\ (t_cof (fst s) = true -> t_cof (fst s') = true)
+  /\ (forall e, o = Exn e -> e = UnicodeEncodeError \/ e = ClientDisconnected).
+Proof.
+  destruct s as [t ch]. unfold write_header.
+  destruct (negb (t_wrote_header t)).
+  2: { intro H; inversion H; subst. cbn. repeat split; auto. intros e He; discriminate. }
+  unfold build_response_header.
+  pose proof (keeps_bh_prepare t) as (K1 & K2 & _).
+  destruct (encode_latin1 _) as [rh|e0] eqn:Ee.
+  - destruct (write_soon disc ch (WBytes rh)) as [ch1 [u|e1]] eqn:Ew; intro H; inversion H; subst; cbn [fst];
+      repeat split; auto; intros e He; inversion He; subst.
+    right. eapply write_soon_bytes_exn; eauto.
+  - intro H; inversion H; subst; cbn [fst]. repeat split; auto. intros e He; inversion He; subst.
+    left. unfold encode_latin1 in Ee. destruct (forallb _ _); inversion Ee; auto.
+Qed.
+
+Lemma write_body_facts s data s' o : write_body disc s data = (s', o) ->
+  t_complete (fst s') = t_complete (fst s) /\ t_cof (fst s') = t_cof (fst s)
+  /\ (forall e, o = Exn e -> e = ClientDisconnected).
+Proof.
+  destruct s as [t ch]. unfold write_body.
+  destruct data as [|x data]; [intro H; inversion H; subst; cbn; repeat split; auto; intros; discriminate|].
+  destruct (has_body t).
+  - destruct (t_chunked t).
+    + destruct (to_hex_upper _ ++ _) as [|y tw].
+      * intro H; inversion H; subst; cbn; repeat split; auto; intros; discriminate.
+      * destruct (write_soon disc ch (WBytes (y :: tw))) as [ch2 o2] eqn:Ews.
+        intro H; inversion H; subst; cbn; repeat split; auto. intros e ->. eapply write_soon_bytes_exn; eauto.
+    + destruct (t_clen t) as [cl|].
+      * destruct (py_slice_to _ _) as [|y tw].
+        -- intro H; inversion H; subst; cbn; repeat split; auto; intros; discriminate.
+        -- destruct (write_soon disc ch (WBytes (y :: tw))) as [ch2 o2] eqn:Ews.
+           intro H; inversion H; subst; cbn; repeat split; auto. intros e ->. eapply write_soon_bytes_exn; eauto.
+      * destruct (write_soon disc ch (WBytes (x :: data))) as [ch2 o2] eqn:Ews.
+        intro H; inversion H; subst; cbn; repeat split; auto. intros e ->. eapply write_soon_bytes_exn; eauto.
+  - intro H; inversion H; subst; cbn; repeat split; auto; intros; discriminate.
+Qed.
+
+Lemma task_write_facts s data s' o : task_write cap lower c r disc s data = (s', o) ->
+  t_complete (fst s') = t_complete (fst s)
+  /\ (t_cof (fst s) = true -> t_cof (fst s') = true)
+  /\ (forall e, o = Exn e -> (e = RuntimeError /\ t_complete (fst s) = false)
+                             \/ e = UnicodeEncodeError \/ e = ClientDisconnected).
+Proof.
+  unfold task_write. destruct (negb (t_complete (fst s))) eqn:Ec.
+  - intro H; injection H as <- <-. repeat split; auto. intros e He; injection He as <-. left. split; auto.
+    destruct (t_complete (fst s)); auto; discriminate.
+  - destruct (write_header cap lower c r disc s) as [s1 [u|e1]] eqn:Eh.
+    + destruct (write_header_facts _ _ _ Eh) as (H1 & H2 & _).
+      intro H. destruct (write_body_facts _ _ _ _ H) as (B1 & B2 & B3).
+      split; [congruence|]. split; [intro Hc; rewrite B2; auto|].
+      intros e He. right. right. eauto.
+    + destruct (write_header_facts _ _ _ Eh) as (H1 & H2 & H3).
+      intro H; injection H as <- <-. split; [exact H1|]. split; [exact H2|].
+      intros e He; injection He as <-. right. apply H3. reflexivity.
+Qed.
+
+Lemma task_finish_facts s s' o : task_finish cap lower c r disc s = (s', o) ->
+  t_complete (fst s') = t_complete (fst s)
+  /\ (t_cof (fst s) = true -> t_cof (fst s') = true)
+  /\ (forall e, o = Exn e -> (e = RuntimeError /\ t_complete (fst s) = false)
+                             \/ e = UnicodeEncodeError \/ e = ClientDisconnected).
+Proof.
+  unfold task_finish.
+  set (r1 := if negb (t_wrote_header (fst s)) then _ else _).
+  assert (F : t_complete (fst (fst r1)) = t_complete (fst s)
+    /\ (t_cof (fst s) = true -> t_cof (fst (fst r1)) = true)
+    /\ (forall e, snd r1 = Exn e -> (e = RuntimeError /\ t_complete (fst s) = false)
+                             \/ e = UnicodeEncodeError \/ e = ClientDisconnected)).
+  { subst r1. destruct (negb _).
+    - destruct (task_write cap lower c r disc s []) as [s1 o1] eqn:E. apply task_write_facts in E. exact E.
+    - cbn. repeat split; auto. intros; discriminate. }
+  destruct r1 as [[t ch] [u|e1]]; cbn [fst snd] in F; destruct F as (F1 & F2 & F3).
+  - destruct (t_chunked t).
+    + destruct (write_soon disc ch (WBytes chunk_terminator)) as [ch1 o1] eqn:Ews.
+      intro H; inversion H; subst; cbn [fst]. repeat split; auto.
+      intros e ->. right. right. eapply write_soon_bytes_exn; eauto.
+    + intro H; inversion H; subst; cbn [fst]. repeat split; auto. intros; discriminate.
+  - intro H; inversion H; subst; cbn [fst]. repeat split; auto.
+Qed.
+
+(* an error task (ErrorTask: complete = True) raises nothing but an encode error
+   of the server's own strings or ClientDisconnected, and always ends with
+   close_on_finish set *)
+Lemma error_run_facts_er t ch e : t_complete t = true ->
+  let x := task_service cap lower c r disc (t, ch) (inr e) in
+  t_cof (fst (x_st x)) = true
+  /\ (forall ex, x_out x = Exn ex -> ex = UnicodeEncodeError \/ ex = ClientDisconnected).
+Proof.
+  intro Hc. cbn zeta. unfold task_service, task_run, error_execute.
+  destruct e as [[code reason] body].
+  match goal with |- context [task_write cap lower c r disc ?s1 ?d] =>
+    destruct (task_write cap lower c r disc s1 d) as [s2 o2] eqn:Ew;
+    assert (G1 : t_complete (fst s1) = true /\ t_cof (fst s1) = true) end.
+  { cbn [fst]. split.
+    - destruct (keeps_scof (set_rh (t_rh (set_status (code ++ [32] ++ reason) t) ++ [err_header])
+                                   (set_status (code ++ [32] ++ reason) t))) as [(K1 & _) _].
+      cbn [t_complete set_clen]. rewrite K1. exact Hc.
+    - apply keeps_scof. }
+  destruct G1 as [G1 G2].
+  destruct (task_write_facts _ _ _ _ Ew) as (W1 & W2 & W3).
+  destruct o2 as [u|e1]; cbn [x_out x_st].
+  - destruct (task_finish cap lower c r disc s2) as [s3 o3] eqn:Ef. cbn [x_out x_st].
+    destruct (task_finish_facts _ _ _ Ef) as (F1 & F2 & F3).
+    assert (Hfin : forall ex, o3 = Exn ex -> ex = UnicodeEncodeError \/ ex = ClientDisconnected).
+    { intros ex Hex. destruct (F3 ex Hex) as [[_ Hcf]|H]; auto. congruence. }
+    destruct o3 as [u3|e3]; cbn [x_out x_st fst].
+    + split; auto; intros; discriminate.
+    + destruct (Hfin e3 eq_refl) as [->| ->]; cbn [is_OSError x_st x_out fst]; split; auto;
+        intros ex Hex; inversion Hex; auto.
+  - assert (Hw : e1 = UnicodeEncodeError \/ e1 = ClientDisconnected).
+    { destruct (W3 e1 eq_refl) as [[_ Hcf]|H]; auto. congruence. }
+    destruct Hw as [->| ->]; cbn [is_OSError x_st x_out fst]; split; auto; intros ex Hex; inversion Hex; auto.
+Qed.
+
+End Contain2.
+
+(* ---- the ladder ------------------------------------------------------------ *)
+
+Section Ladder.
+Variable cap : str -> str.
+Variable lower : str -> str.
+Variable c : cfg.
+Variable r : req.
+Variable disc : option nat.
+
+(* what Task.service lets out is what execute()/finish() raised *)
+Lemma task_service_out s job e :
+  x_out (task_service cap lower c r disc s job) = Exn e ->
+  x_out (task_run cap lower c r disc s job) = Exn e.
+Proof.
+  unfold task_service. destruct (x_out (task_run cap lower c r disc s job)) as [u|e0] eqn:E; [rewrite E; discriminate|].
+  destruct (is_OSError e0); cbn [x_out]; [destruct (c_log_socket_errors c)|rewrite E]; congruence.
+Qed.
+
+(* Every exception that leaves HTTPChannel.service() is either a non-Exception
+   (BaseException subclass) raised through the application -- the open finding:
+   then there is neither a close decision nor a next request -- or an encode
+   error of the server's own 500 (server strings that are not latin-1). *)
+Theorem ladder_escape x raw e :
+  let res := ladder cap lower c r disc x raw in
+  o_escaped res = Some e ->
+  (is_Exception e = false /\ x_out x = Exn e /\ o_served_500 res = false
+   /\ o_close res = false /\ o_next res = false /\ o_writes res = o_writes1 res)
+  \/ (e = UnicodeEncodeError /\ o_served_500 res = true).
+Proof.
+  cbn zeta. unfold ladder.
+  destruct (x_out x) as [u|e0]; [cbn; discriminate|].
+  destruct (exn_eqb e0 ClientDisconnected); [cbn; discriminate|].
+  destruct (is_Exception e0) eqn:Eex.
+  - destruct (negb (t_wrote_header (fst (x_st x)))); [|cbn; discriminate].
+    match goal with |- context [task_service cap lower c ?er disc (?t1, ?ch1) (inr ?ee)] =>
+      set (er0 := er); set (ee0 := ee); set (ch0 := ch1) end.
+    pose proof (error_run_facts_er cap lower c er0 disc (new_task (r_version r) true) ch0 ee0 eq_refl) as [_ EF].
+    cbn zeta in EF.
+    destruct (x_out (task_service cap lower c er0 disc (new_task (r_version r) true, ch0) (inr ee0))) as [u1|e1] eqn:E1;
+      [cbn; discriminate|].
+    destruct (EF e1 E1) as [->| ->]; cbn [exn_eqb]; cbn; [|discriminate].
+    intro H; inversion H; subst. right. auto.
+  - cbn. intro H; inversion H; subst. left. repeat split; auto.
+Qed.
+
+(* how the first task's result relates to what its execute()/finish() raised *)
+Definition service_rel (x : exec_result) (raw : option exn) : Prop :=
+  match raw with
+  | None => x_out x = Ok tt
+  | Some e =>
+      if is_OSError e then
+        x_out x = (if c_log_socket_errors c then Exn e else Ok tt) /\ t_cof (fst (x_st x)) = true
+      else x_out x = Exn e
+  end.
+
+Lemma task_service_rel s job :
+  service_rel (task_service cap lower c r disc s job)
+              (match x_out (task_run cap lower c r disc s job) with Exn e => Some e | Ok _ => None end).
+Proof.
+  unfold service_rel, task_service.
+  destruct (x_out (task_run cap lower c r disc s job)) as [[]|e] eqn:E.
+  - exact E.
+  - destruct (is_OSError e); cbn [x_out x_st fst]; auto.
+Qed.
+
+(* the outcome of HTTPChannel.service(), by what the application did *)
+Definition outcome_spec (res : result) : Prop :=
+  let quiet_close := o_close res = true /\ o_next res = false /\ o_escaped res = None
+                     /\ o_served_500 res = false /\ o_writes res = o_writes1 res in
+  match o_raw res with
+  | None =>                                   (* nothing was raised *)
+      o_escaped res = None /\ o_served_500 res = false /\ o_writes res = o_writes1 res
+  | Some e =>
+      if exn_eqb e ClientDisconnected then quiet_close          (* the client went away *)
+      else if negb (is_Exception e) then                         (* BaseException subclass: the open finding *)
+        o_escaped res = Some e /\ o_close res = false /\ o_next res = false
+        /\ o_served_500 res = false /\ o_writes res = o_writes1 res
+      else if is_OSError e && negb (c_log_socket_errors c) then quiet_close   (* swallowed by `except OSError` *)
+      else if o_wrote_header1 res then quiet_close               (* failure after output began *)
+      else                                                       (* failure before any output *)
+        o_served_500 res = true
+        /\ (o_escaped res = None -> o_close res = true /\ o_next res = false)
+        /\ (forall e1, o_escaped res = Some e1 -> e1 = UnicodeEncodeError)
+  end.
+
+Theorem ladder_outcome x raw : service_rel x raw -> outcome_spec (ladder cap lower c r disc x raw).
+Proof.
+  intro Hrel. unfold outcome_spec.
+  destruct (ladder_fields cap lower c r disc x raw) as (_ & _ & _ & Eraw & Ew1 & Ewh & _). cbn zeta in *.
+  rewrite Eraw, Ewh. clear Eraw. unfold service_rel in Hrel.
+  destruct raw as [e|].
+  2: { unfold ladder. rewrite Hrel. cbn. auto. }
+  destruct (is_OSError e) eqn:Eos.
+  - (* an OSError subclass *)
+    destruct e; try discriminate. cbn [exn_eqb is_Exception negb is_OSError andb].
+    destruct Hrel as [Hout Hcof].
+    destruct (c_log_socket_errors c); cbn [negb].
+    + unfold ladder. rewrite Hout. cbn [exn_eqb is_Exception].
+      destruct (t_wrote_header (fst (x_st x))) eqn:W; cbn [negb].
+      * cbn. repeat split; auto.
+      * match goal with |- context [task_service cap lower c ?er disc (?t1, ?ch1) (inr ?ee)] =>
+          set (er0 := er); set (ee0 := ee); set (ch0 := ch1) end.
+        remember (task_service cap lower c er0 disc (new_task (r_version r) true, ch0) (inr ee0)) as x1 eqn:Hx1.
+        assert (EFacts : t_cof (fst (x_st x1)) = true
+                         /\ (forall ex, x_out x1 = Exn ex -> ex = UnicodeEncodeError \/ ex = ClientDisconnected))
+          by (subst x1; apply (error_run_facts_er cap lower c er0 disc (new_task (r_version r) true) ch0 ee0 eq_refl)).
+        destruct EFacts as [ECof EF]. clear Hx1.
+        destruct (x_out x1) as [u1|e1] eqn:E1.
+        -- cbn. rewrite ECof. repeat split; auto. intros; discriminate.
+        -- destruct (EF e1 eq_refl) as [->| ->]; cbn [exn_eqb]; cbn.
+           ++ repeat split; auto; try discriminate. intros e1 H; inversion H; auto.
+           ++ repeat split; auto. intros; discriminate.
+    + unfold ladder. rewrite Hout. cbn. rewrite Hcof. cbn. repeat split; auto.
+  - unfold ladder. rewrite Hrel. cbn [andb].
+    destruct (exn_eqb e ClientDisconnected) eqn:Ecd.
+    { cbn. repeat split; auto. }
+    destruct (is_Exception e) eqn:Eex; cbn [negb].
+    2: { cbn. repeat split; auto. }
+    destruct (t_wrote_header (fst (x_st x))) eqn:W; cbn [negb].
+    + cbn. repeat split; auto.
+    + match goal with |- context [task_service cap lower c ?er disc (?t1, ?ch1) (inr ?ee)] =>
+        set (er0 := er); set (ee0 := ee); set (ch0 := ch1) end.
+      remember (task_service cap lower c er0 disc (new_task (r_version r) true, ch0) (inr ee0)) as x1 eqn:Hx1.
+      assert (EFacts : t_cof (fst (x_st x1)) = true
+                       /\ (forall ex, x_out x1 = Exn ex -> ex = UnicodeEncodeError \/ ex = ClientDisconnected))
+        by (subst x1; apply (error_run_facts_er cap lower c er0 disc (new_task (r_version r) true) ch0 ee0 eq_refl)).
+      destruct EFacts as [ECof EF]. clear Hx1.
+      destruct (x_out x1) as [u1|e1] eqn:E1.
+      * cbn. rewrite ECof. repeat split; auto. intros; discriminate.
+      * destruct (EF e1 eq_refl) as [->| ->]; cbn [exn_eqb]; cbn.
+        -- repeat split; auto; try discriminate. intros e1 H; inversion H; auto.
+        -- repeat split; auto. intros; discriminate.
+Qed.
+
+Theorem service_outcome a : outcome_spec (channel_service cap lower c r a disc).
+Proof.
+  unfold channel_service. destruct (connected disc 0).
+  - apply ladder_outcome. apply task_service_rel.
+  - apply ladder_outcome. reflexivity.
+Qed.
+
+End Ladder.
+
+(* ---- no traceback text unless expose_tracebacks ---------------------------- *)
+
+Section NoLeak.
+Variable cap : str -> str.
+Variable lower : str -> str.
+
+(* two configurations that differ at most in expose_tracebacks and the traceback text *)
+Definition cfg_eqv (c1 c2 : cfg) : Prop :=
+  c_ident c1 = c_ident c2 /\ c_date c1 = c_date c2 /\ c_log_socket_errors c1 = c_log_socket_errors c2.
+
+Variables c1 c2 : cfg.
+Hypothesis Heqv : cfg_eqv c1 c2.
+
+Lemma eqv_bh_prepare r t : bh_prepare cap lower c1 r t = bh_prepare cap lower c2 r t.
+Proof.
+  destruct Heqv as (H1 & H2 & _). unfold bh_prepare, bh_server, bh_date. rewrite H1, H2. reflexivity.
+Qed.
+
+Lemma eqv_write_header r disc s : write_header cap lower c1 r disc s = write_header cap lower c2 r disc s.
+Proof. destruct s as [t ch]. unfold write_header, build_response_header. rewrite eqv_bh_prepare. reflexivity. Qed.
+
+Lemma eqv_task_write r disc s d : task_write cap lower c1 r disc s d = task_write cap lower c2 r disc s d.
+Proof. unfold task_write. rewrite eqv_write_header. reflexivity. Qed.
+
+Lemma eqv_task_finish r disc s : task_finish cap lower c1 r disc s = task_finish cap lower c2 r disc s.
+Proof. unfold task_finish. rewrite eqv_task_write. reflexivity. Qed.
+
+Lemma eqv_run_action r disc s a : run_action cap lower c1 r disc s a = run_action cap lower c2 r disc s a.
+Proof. destruct a; cbn [run_action]; auto. apply eqv_task_write. Qed.
+
+Lemma eqv_run_actions r disc l : forall s, run_actions cap lower c1 r disc s l = run_actions cap lower c2 r disc s l.
+Proof.
+  induction l as [|a l IH]; intro s; cbn [run_actions]; auto.
+  rewrite eqv_run_action. destruct (run_action cap lower c2 r disc s a) as [s1 [u|e]]; auto.
+Qed.
+
+Lemma eqv_iterate r disc steps : forall f l b s,
+  iterate cap lower c1 r disc f l b s steps = iterate cap lower c2 r disc f l b s steps.
+Proof.
+  induction steps as [|sp steps IH]; intros f l b s; cbn [iterate]; auto.
+  rewrite eqv_run_actions. destruct (run_actions cap lower c2 r disc s (s_acts sp)) as [s1 [u|e]]; auto.
+  destruct (s_res sp); auto. destruct (f && _); auto. destruct s1 as [t ch].
+  destruct b0 as [|y b0]; [apply IH|]. rewrite eqv_task_write.
+  match goal with |- context [task_write cap lower c2 r disc ?s0 ?d] =>
+    destruct (task_write cap lower c2 r disc s0 d) as [s2 [u2|e2]] end; auto.
+Qed.
+
+Lemma eqv_execute_body r disc s a : execute_body cap lower c1 r disc s a = execute_body cap lower c2 r disc s a.
+Proof.
+  unfold execute_body. rewrite eqv_iterate.
+  destruct (a_kind a); auto. destruct s as [t ch].
+  repeat match goal with
+         | |- context [task_write cap lower c1 r disc ?s0 ?d] => rewrite (eqv_task_write r disc s0 d)
+         end. reflexivity.
+Qed.
+
+Lemma eqv_task_run r disc s job : task_run cap lower c1 r disc s job = task_run cap lower c2 r disc s job.
+Proof.
+  unfold task_run, wsgi_execute, error_execute. destruct job as [a|[[code reason] body]].
+  - rewrite eqv_run_actions. destruct (run_actions cap lower c2 r disc s (a_call a)) as [s1 [u|e]]; cbn [x_out]; auto.
+    rewrite eqv_execute_body. destruct (execute_body cap lower c2 r disc s1 a) as [[s2 o] cc].
+    destruct (cc && a_has_close a); [destruct (a_close_exn a)|]; cbn [x_out x_st]; auto;
+      destruct o; auto; rewrite eqv_task_finish; reflexivity.
+  - destruct Heqv as (H1 & _). rewrite H1. destruct s as [t ch]. rewrite eqv_task_write.
+    match goal with |- context [task_write cap lower c2 r disc ?s0 ?d] =>
+      destruct (task_write cap lower c2 r disc s0 d) as [s2 [u2|e2]] end; cbn [x_out x_st]; auto.
+    rewrite eqv_task_finish. reflexivity.
+Qed.
+
+Lemma eqv_task_service r disc s job : task_service cap lower c1 r disc s job = task_service cap lower c2 r disc s job.
+Proof.
+  unfold task_service. rewrite eqv_task_run. destruct Heqv as (_ & _ & H3). rewrite H3. reflexivity.
+Qed.
+
+(* With expose_tracebacks off, nothing the server does depends on the traceback
+   text: the whole result (wire bytes included) is the same for any two texts. *)
+Theorem no_traceback_leak r a disc :
+  c_expose_tracebacks c1 = false -> c_expose_tracebacks c2 = false ->
+  channel_service cap lower c1 r a disc = channel_service cap lower c2 r a disc.
+Proof.
+  intros E1 E2. unfold channel_service, ladder. rewrite E1, E2.
+  rewrite !eqv_task_service, !eqv_task_run. reflexivity.
+Qed.
+
+End NoLeak.
+
+(* ---- the open findings, as witnesses ---------------------------------------- *)
+
+Definition base_app : app :=
+  mkApp [ARaise AppBaseException] KGen [] true None.
+Definition oserr_app : app :=
+  mkApp [ARaise AppOSError] KGen [] true None.
+Definition quiet_cfg : cfg :=
+  mkCfg (lit "waitress") false false (lit "Thu, 01 Jan 2026 00:00:00 GMT") (lit "TB").
+
+(* F15: a BaseException subclass escapes: no bytes, no close decision, no next request *)
+Lemma baseexception_limbo :
+  let res := run_task sample_cfg sample_req base_app None in
+  o_escaped res = Some AppBaseException /\ o_writes res = [] /\ o_close res = false /\ o_next res = false.
+Proof. vm_compute. repeat split; reflexivity. Qed.
+
+(* F16: an application OSError before any output with log_socket_errors off: silent close, no 500 *)
+Lemma oserror_swallowed :
+  let res := run_task quiet_cfg sample_req oserr_app None in
+  o_raw res = Some AppOSError /\ o_wrote_header1 res = false
+  /\ o_served_500 res = false /\ o_writes res = [] /\ o_close res = true.
+Proof. vm_compute. repeat split; reflexivity. Qed.
